@@ -910,6 +910,44 @@ func extractDataRegexes(qs query.ConditionsSet, refTime time.Time, tagDetails ma
 // The result is tagDetails with these tags decided, tagDetails itself is not modified.
 func decideTagsWithSubQueries(ctx context.Context, indexes []*Reader, qs query.ConditionsSet, tagDetails map[string]query.TagDetails, converters map[string]ConverterAccess) (map[string]query.TagDetails, error) {
 	decided := (map[string]query.TagDetails)(nil)
+	// the data filters of one alternative have to name the same converter: when the filters of the query and of the
+	// undecided tags it uses name different ones, the tags with data filters are decided instead of inlined
+	converterNames := map[string]struct{}{}
+	collectSeen := map[string]struct{}{}
+	collect := (func(query.ConditionsSet))(nil)
+	collect = func(cs query.ConditionsSet) {
+		for _, ccs := range cs {
+			for _, cc := range ccs {
+				if dc, ok := cc.(*query.DataCondition); ok {
+					for _, e := range dc.Elements {
+						converterNames[e.ConverterName] = struct{}{}
+					}
+				}
+			}
+		}
+		f := cs.Features()
+		for _, tn := range append(append([]string(nil), f.MainTags...), f.SubQueryTags...) {
+			if _, ok := collectSeen[tn]; ok {
+				continue
+			}
+			collectSeen[tn] = struct{}{}
+			if td, ok := tagDetails[tn]; ok && !td.Uncertain.IsZero() {
+				collect(td.Conditions)
+			}
+		}
+	}
+	collect(qs)
+	mixedConverters := len(converterNames) > 1
+	hasDataFilter := func(cs query.ConditionsSet) bool {
+		for _, ccs := range cs {
+			for _, cc := range ccs {
+				if _, ok := cc.(*query.DataCondition); ok {
+					return true
+				}
+			}
+		}
+		return false
+	}
 	seen := map[string]struct{}{}
 	visit := (func(query.ConditionsSet) error)(nil)
 	visit = func(cs query.ConditionsSet) error {
@@ -923,7 +961,7 @@ func decideTagsWithSubQueries(ctx context.Context, indexes []*Reader, qs query.C
 			if !ok || td.Uncertain.IsZero() {
 				continue
 			}
-			if len(td.Conditions.SubQueries()) <= 1 {
+			if len(td.Conditions.SubQueries()) <= 1 && !(mixedConverters && hasDataFilter(td.Conditions)) {
 				// the conditions of this tag replace the filter, the tags they use are used by the search as well
 				if err := visit(td.Conditions); err != nil {
 					return err
